@@ -1,6 +1,7 @@
 package interp
 
 import (
+	"strconv"
 	"strings"
 	"sync/atomic"
 )
@@ -27,7 +28,10 @@ func genAST(sc *scope, root *node, types []*itype) (*node, bool, error) {
 	for _, t := range types {
 		sname += t.id() + ","
 	}
-	sname = strings.TrimSuffix(sname, ",") + "]"
+	// The cache key identifies the generic declaration itself, not only its name: another
+	// declaration of the same name (in another package, or a later redefinition) must not
+	// get the instance generated from this one.
+	sname = strconv.FormatInt(root.index, 10) + ":" + strings.TrimSuffix(sname, ",") + "]"
 
 	gtree = func(n, anc *node) (*node, error) {
 		nod := copyNode(n, anc, false)
